@@ -434,7 +434,8 @@ def check_content(scn, res):
                 dst = next((b for a, b in spec if a == t), None)
 
             if dst is not None:
-                kind = 'bgr' if (srcf.get('payload') or {}).get('reuse') else simnet.KINDS[(j + k) % len(simnet.KINDS)]
+                kinds = (srcf.get('payload') or {}).get('kinds') or simnet.KINDS
+                kind  = 'bgr' if (srcf.get('payload') or {}).get('reuse') else kinds[(j + k) % len(kinds)]
                 exp[dst] = simnet.payload(kind, 'src', 0, k, t)[1]
 
         obs = e.get('content', {})
